@@ -1,7 +1,7 @@
 (* C14 - Actions survive the wire unchanged and compare/hash consistently.
    Statements only; proofs are in Proofs/CodecFacts.v. *)
 From Coq Require Import String ZArith List Bool Permutation.
-From NSG Require Import Base.Prelude Model.Json Model.Ipv4Text Model.Codec Proofs.CodecFacts.
+From NSG Require Import Base.Prelude Model.Json Model.Ipv4Text Model.Codec Proofs.CodecFacts Proofs.TypeNames.
 Import ListNotations.
 Open Scope string_scope.
 
@@ -46,6 +46,9 @@ Proof. exact dec_action_typed. Qed.
 Theorem C14_refuse_unknown_type : forall o ts, jget "action_type" o = Some (JStr ts) -> atype_of_string ts = None ->
   dec_action (JObj o) = None.
 Proof. exact refuse_unknown_type. Qed.
+(* a type text is accepted only if it is the name of a supported type, bare or behind ONE leading "ActionType." (nothing before, between or after) *)
+Theorem C14_type_names_exact : forall s t, atype_of_string s = Some t -> s = atype_name t \/ s = ("ActionType." ++ atype_name t)%string.
+Proof. exact atype_of_string_inv. Qed.
 Theorem C14_refuse_unknown_key : forall ps k v rest, pkey_of_name k = None -> mapM dec_param (ps ++ (k, v) :: rest) = None.
 Proof. exact refuse_bad_param. Qed.
 Theorem C14_refuse_bad_ip : forall s, ipv4_ok s = false -> dec_ip (enc_ip s) = None.
@@ -71,5 +74,6 @@ Print Assumptions C14_distinct_param.
 Print Assumptions C14_refuse.
 Print Assumptions C14_decoded_typed.
 Print Assumptions C14_refuse_unknown_type.
+Print Assumptions C14_type_names_exact.
 Print Assumptions C14_refuse_unknown_key.
 Print Assumptions C14_refuse_bad_ip.
